@@ -40,6 +40,34 @@ func Dev(name string, c *core.Ctx) {
 		DebugEncodeString(c)
 	case "sccs":
 		DumpSCCs(c)
+	case "avail":
+		tab, why := decAvailTable(c.Prog)
+		fmt.Println(why)
+		var ks []string
+		for k := range tab {
+			ks = append(ks, k)
+		}
+		sort.Strings(ks)
+		for _, k := range ks {
+			fmt.Printf("%-28s %+v\n", k, tab[k])
+		}
+		if h := os.Getenv("AVAILH"); h != "" {
+			a := newAsmCtx(c.Prog, "internal/decoder/jitdec", "_Assembler")
+			for _, fd := range a.methods() {
+				if fd.Name.Name != h {
+					continue
+				}
+				seqs, _ := a.seqs(fd, asmEnv{}, 0)
+				for _, sq := range seqs {
+					g := buildSeqCFG(sq.Ops)
+					in := boundFlow(g, 1, "R11", "R12")
+					for i, o := range g.ops {
+						fmt.Printf("%3d r=%v av=%d  %s %s\n", i, in[i].reached, in[i].avail, o.Kind, o.String())
+					}
+					fmt.Printf("end r=%v av=%d\n", in[len(g.ops)].reached, in[len(g.ops)].avail)
+				}
+			}
+		}
 	case "pkgstate":
 		DumpPkgState(c)
 	default:
